@@ -51,6 +51,18 @@ CHECKS = {
         note="Trusts the graph model; Vdelete/VSdelete only on detached objects.",
         tech=TECH % ("", "oracle = graph reference model"),
     ),
+    "C09": dict(
+        profile="raster", cat="exploration", ref="DESIGN.md section 4 C09",
+        text="Seeded search over GR histories: images 1..9 x 1..8 with 1..5 components, 9 number types, the three "
+             "create-time interlaces, user/default fill, RLE/skipping-Huffman/deflate, chunked (any chunk shape, "
+             "optionally deflate); region writes (partial first writes included), region and strided reads in the "
+             "three read interlaces, palettes in three read interlaces, GRendaccess/GRselect, GRend/GRstart restarts. "
+             "Oracle: height x width x components model with independently written interlace permutations. "
+             "8 000 (quick) / 200 000 (thorough) histories.",
+        note="Trusts the array model; writes use stride 1 (the property speaks of region writes); compressed "
+             "non-chunked images are written once and released (two known findings, stored replays).",
+        tech=TECH % ("", "oracle = pixel-array reference model"),
+    ),
     "C12": dict(
         profile="ddmap", cat="exploration", ref="DESIGN.md section 4 C12",
         text="Seeded search over create/delete/duplicate/reuse/search/count/new-ref histories (descriptor-block sizes "
